@@ -1,5 +1,6 @@
 //! One module per group of properties.
 
+pub mod bounds;
 pub mod dynamic;
 pub mod encodings;
 pub mod sat;
@@ -19,6 +20,8 @@ pub fn run(ctx: &mut Ctx, prop: &str) -> bool {
         "C07" => static_eval::run(ctx, static_eval::Prop::C07),
         "C08" | "C09" => dynamic::run(ctx, prop),
         "C10" => encodings::run(ctx),
+        "C18" => bounds::run_c18(ctx),
+        "C19" => bounds::run_c19(ctx),
         "C15" => sat::run_c15(ctx),
         "C16" => sat::run_c16(ctx),
         "C17" => sat::run_c17(ctx),
@@ -39,6 +42,8 @@ pub fn replay(ctx: &mut Ctx, prop: &str, case: &Value, detail: &Value) -> Result
         "C07" => static_eval::replay(ctx, static_eval::Prop::C07, case, detail),
         "C08" | "C09" => dynamic::replay(ctx, prop, case),
         "C10" => encodings::replay(ctx, case, detail),
+        "C18" => bounds::replay_c18(ctx, case, detail),
+        "C19" => bounds::replay_c19(ctx, case),
         "C15" => sat::replay_c15(ctx, case),
         "C16" => sat::replay_c16(ctx, case, detail),
         "C17" => sat::replay_c17(ctx, case, detail),
